@@ -39,11 +39,15 @@ impl WFault {
 #[derive(Clone, Debug, Hash, PartialEq, Eq, Serialize, Deserialize, Default)]
 pub struct FaultPlan {
     /// every call accepts at most this many bytes (None = unlimited)
+    #[serde(default)]
     pub cap: Option<u32>,
     /// (write-call index, fault), indices counted over all calls including retried ones
+    #[serde(default)]
     pub faults: Vec<(u32, WFault)>,
     /// after this many delivered bytes every call fails with StorageFull (disk full at an offset)
+    #[serde(default)]
     pub full_at: Option<u32>,
+    #[serde(default)]
     pub flush_error: bool,
 }
 
